@@ -10,8 +10,11 @@ for mp in sorted(glob.glob('/verif/seeded/*/meta.json')):
     t=m['needs_to_manifest']
     t=t.split(': needs')[0].split('; needs')[0]
     used.setdefault(m['breaks_property'],[]).append(t[:240])
+import os as _os
+_only=_os.environ.get('ONLY','').split()
 for p in props:
     pid=p['id']; d=f'{ROOT}/{pid}'
+    if _only and pid not in _only: continue
     os.makedirs(ROOT,exist_ok=True)
     subprocess.check_call(['git','-C','/repo','worktree','add','-q','--detach',d,'HEAD'])
     os.makedirs(d+'/seed_out',exist_ok=True)
